@@ -1,1 +1,6 @@
 import CGV.Props.C08
+#print axioms CGV.C08.C08_bonding
+#print axioms CGV.C08.C08_format_bonding
+#print axioms CGV.C08.C08_single_node
+#print axioms CGV.formatBonding_wf
+#print axioms CGV.stripAux_descs
